@@ -80,3 +80,14 @@ prop("C05",
           "instants are separated by >= 1 breakpoint (live edge differs); distinct by hash of the case.",
      quick=dict(shards=2, timeout=400), thorough=dict(shards=16, timeout=1500),
      assumptions=COMMON + ["publishTime is compared at millisecond resolution (floor..ceil of the exact change instant)"])
+
+prop("C06",
+     rule="rapid draws (asset bundled or generated uniform layout incl. text/thumbnail sets, MPD, type Number/Timeline-Time/Timeline-Number, "
+          "tsbd, ato, startNumber, continuous on/off, periods-per-hour from all 1..3600 values compatible with the segment duration plus "
+          "incompatible ones) and an instant at a period boundary, at boundary+tsbd, at a loop wrap or inside a period (offsets 0,+-1,+-2 ms). "
+          "The multi-period MPD and the single-period MPD of the same instant are parsed: periods tile k*P with ids P<k>, PTO = k*P*timescale, "
+          "every single-period segment starting at or after the first period start appears exactly once in the period containing its start "
+          "with the same time/duration/number, no extra segments, per-period URLs return the same bytes, continuity signalled iff requested, "
+          "incompatible values rejected. Non-trivial = an MPD with >= 2 periods of which >= 2 non-empty; distinct by hash of the case.",
+     quick=dict(shards=2, timeout=400), thorough=dict(shards=16, timeout=1500),
+     assumptions=COMMON + ["start_ = 0 (the statement gives period starts in wall-clock terms); tsbd >= 2 segment durations"])
